@@ -15,8 +15,8 @@ import (
 
 func init() {
 	fw.Register(&fw.Property{
-		ID:    "C06",
-		Level: "exploration",
+		ID:     "C06",
+		Level:  "exploration",
 		Jitter: true,
 		Rule: "tie-rich query (1-6) and target (1-40) sets of width 8-300: targets derived from queries by substitutions drawn from a small shared pool, duplicates, the same column masked by N in one target and by a compatible 2-fold code in another (equal distance, different completeness), equal completeness (file-order ties), all-N / all-gap / heavily ambiguous targets at first, middle and last file position; measures raw/snp/tn93; n in {plain,1,2,3,|T|,|T|+3}; d in {none, an occurring distance, between two, 0}; table on/off; threads {0,1,2,16}; " +
 			"distinct non-trivial = distinct (measure, n kind, d kind, tie pattern, undefined-target position, capacity-boundary replacement) tuples",
@@ -162,15 +162,21 @@ func c06Inputs(r *fw.Rng, measure string) ([]gen.FastaRec, []c06Target, string) 
 		k, j := r.Intn(len(qs)), r.Intn(len(ts))
 		ts[j].rec.ID, ts[j].rec.Desc = qs[k].ID, qs[k].Desc
 	}
+	gen.Describe(r, qs)
+	for j := range ts {
+		one := []gen.FastaRec{ts[j].rec}
+		gen.Describe(r, one)
+		ts[j].rec = one[0]
+	}
 	return qs, ts, undefPos
 }
 
 type c06Dist struct {
-	def    bool
-	num    int // snp: n ; raw: n
-	den    int // raw: n+same ; snp: 1
-	f      float64
-	tuple  string
+	def   bool
+	num   int // snp: n ; raw: n
+	den   int // raw: n+same ; snp: 1
+	f     float64
+	tuple string
 }
 
 func c06Distance(measure, q, t string) c06Dist {
@@ -307,7 +313,7 @@ func runC06(c *fw.Ctx, idx int) fw.Result {
 	}
 	if idx%20 == 5 {
 		binSample(c, &res, idx, "closest", map[string]string{"query.fasta": qText, "target.fasta": tText}, func(p func(string) string) []string {
-			a := []string{"closest", "--query", p("query.fasta"), "--target", p("target.fasta"), "-m", []string{measure, strings.ToUpper(measure)}[idx%2]}
+			a := []string{"closest", "--query", p("query.fasta"), "--target", p("target.fasta"), "-m", spellMeasure(measure, idx)}
 			if threads != 0 {
 				a = append(a, "-t", fmt.Sprint(threads))
 			}
@@ -321,7 +327,7 @@ func runC06(c *fw.Ctx, idx int) fw.Result {
 				a = append(a, "--table")
 			}
 			return a
-		}, nil, map[bool]string{true: "", false: "-o"}[idx%3 == 0], out)
+		}, nil, map[bool]string{true: "", false: "-o"}[fw.Mix(uint64(idx)+99)%3 == 0], out)
 	}
 	lines := strings.Split(strings.TrimSuffix(out, "\n"), "\n")
 	// parse observed per query: names and printed distances
